@@ -55,10 +55,13 @@ def lines_for(meta, rng, tier, extreme=False, only=None, budget=60000):
         for n, t in ps:
             vals.append([str(v) for v in int_values(n, multi, rng, tier, extreme)] if t == 'int' else [hx(v) for v in dbl_values(n, rng, tier)])
         combos = [[]]
+        # functions of integers only (scalar lookups by (Z, shell | line | transition | Auger macro)): the FULL discrete space, never thinned —
+        # a defect confined to one (Z, macro) pair, e.g. LineEnergy(105..109, LA_LINE), must not depend on that pair being sampled
+        full = all(t == 'int' for _, t in ps) and len(ps) <= 2
         for vs in vals:
             combos = [c + [v] for c in combos for v in vs]
-            if len(combos) > 4 * budget: combos = rng.sample(combos, 2 * budget)
-        if len(combos) > budget: combos = rng.sample(combos, budget)
+            if not full and len(combos) > 4 * budget: combos = rng.sample(combos, 2 * budget)
+        if not full and len(combos) > budget: combos = rng.sample(combos, budget)
         tail = ' E' if fi['has_error'] else ''
         out += ['%s %s%s' % (f, ' '.join(c), tail) for c in combos]
         # functions of two integers and real arguments: EVERY atomic number x every value of the second integer (all shells / transitions;
